@@ -2,7 +2,9 @@ package loader
 
 import (
 	"encoding/csv"
+	"errors"
 	"fmt"
+	goio "io"
 	"os"
 	"strings"
 
@@ -42,6 +44,10 @@ func CSVtoNumpyMulti(csvReader *csv.Reader, tbk io.TimeBucketKey, cvm *CSVMetada
 	for i := 0; i < chunkSize; i++ {
 		row, err2 := csvReader.Read()
 		if err2 != nil {
+			if !errors.Is(err2, goio.EOF) {
+				// a malformed row is an error, not the end of the file
+				return nil, false, fmt.Errorf("read csv row %d of this chunk: %w", linesRead+1, err2)
+			}
 			endReached = true
 			break
 		}
